@@ -115,7 +115,21 @@ def compare(orig, got, chain, single_lang_only):
 
 def bounded(ctx, b):
     rng = random.Random(ctx.seed)
-    sets = [gen_set(rng) for _ in range(12 if not ctx.thorough else 150)]
+    crafted = [
+        # cue boundaries on frames whose float time lands just below the integer (201, 203, 803)
+        CaptionSet({"en-US": CaptionList([Caption(4000000, 8040000, [T("frame 201")]), Caption(8120000, 9000000, [T("frame 203")]),
+                                          Caption(32120000, 33000000, [T("frame 803")])])}),
+        # consecutive breaks / an empty line inside a cue
+        CaptionSet({"en-US": CaptionList([Caption(1000000, 2000000, [T("a"), BR(), BR(), T("b")]), Caption(3000000, 4000000, [T("c"), BR(), T(""), BR(), T("d")]),
+                                          Caption(5000000, 6000000, [T("last")])])}),
+        # a second language whose cues start before the first language's
+        CaptionSet({"en-US": CaptionList([Caption(2000000, 3000000, [T("en one")]), Caption(5000000, 6000000, [T("en two")]), Caption(8000000, 9000000, [T("en three")])]),
+                    "fr-FR": CaptionList([Caption(1000000, 1500000, [T("fr un")]), Caption(4000000, 4500000, [T("fr deux")]), Caption(10000000, 11000000, [T("fr trois")])])}),
+        # ... and contiguous cues (each ends where the next begins), the earlier language listed second
+        CaptionSet({"en-US": CaptionList([Caption(2000000, 5000000, [T("en one")]), Caption(5000000, 8000000, [T("en two")]), Caption(8000000, 9000000, [T("en three")])]),
+                    "fr-FR": CaptionList([Caption(1000000, 4000000, [T("fr un")]), Caption(4000000, 10000000, [T("fr deux")]), Caption(10000000, 11000000, [T("fr trois")])])}),
+    ]
+    sets = crafted + [gen_set(rng) for _ in range(12 if not ctx.thorough else 150)]
     names = list(FORMATS)
     chains = [(a,) for a in names] + list(itertools.product(names, repeat=2))
     longer = [tuple(rng.choice(names) for _ in range(rng.choice([3, 4, 5]))) for _ in range(10 if not ctx.thorough else 120)]
